@@ -2,6 +2,11 @@
 # Build the framework from files on disk only (offline).
 set -e
 export CARGO_NET_OFFLINE=true
-cd /verif/lean && lake build
+cd /verif/lean
+lake build
+for f in Driver/C*.lean; do
+  n=$(basename "$f" .lean | tr 'C' 'c')
+  lake build "nv_$n"
+done
 cd /verif/harness && cargo build --offline --bins
 cd /repo && cargo build --offline -p nitrogql-cli --target-dir /verif/.cache/target-cli
